@@ -216,9 +216,10 @@ func envFor(lists ...[]member) (floats []any, zones []any) {
 // ---------- canonical form of *gtfs.Static (the shape DriverStatic prints) ----------
 
 type staticCanon struct {
-	s       *gtfs.Static
-	foreign []string // references that are not elements of the result's own collections
-	badTime []string
+	s             *gtfs.Static
+	foreign       []string // references that are not elements of the result's own collections
+	badTime       []string
+	otherWarnings []string // kinds of warnings unknown to the model
 }
 
 func idxAgency(s *gtfs.Static, p *gtfs.Agency) int {
@@ -429,7 +430,10 @@ func canonStatic(s *gtfs.Static) (map[string]any, *staticCanon) {
 		case warnings.AgencyMissingValues:
 			kind = map[string]any{"kind": "agencyMissingValues", "agencyId": bstr(k.AgencyID), "columns": bstrList(k.Columns)}
 		default:
-			kind = map[string]any{"kind": fmt.Sprintf("%T", w.Kind)}
+			// a kind of warning the model does not know (a later addition to the library): outside the comparison with the
+			// model; that it describes a row of its file is checked for every warning by C09's oracle
+			c.otherWarnings = append(c.otherWarnings, fmt.Sprintf("%T", w.Kind))
+			continue
 		}
 		ws = append(ws, map[string]any{"file": bstr(string(w.File)), "rowNumber": w.RowNumber, "rowContent": bstrList(w.RowContent),
 			"header": bstrList(w.HeaderContent), "kind": kind})
